@@ -773,6 +773,7 @@ pub fn run_c17(rc: &RunCtx) -> Outcome {
     let mut debug_rejected = 0u64;
     // "dev-tests": the same crates checked as test targets (`cargo check --tests`, i.e. with cfg(test) set in the
     // crate that declares the bitfield): the API surface must not depend on it
+    let mut accepted_dev: Vec<usize> = Vec::new();
     for mp in ["dev", "dev-tests"] {
         let dv = check_decls(rc, "c17decl", &decl_items, mp);
         let mut accepted = Vec::new();
@@ -795,6 +796,9 @@ pub fn run_c17(rc: &RunCtx) -> Outcome {
             } else {
                 accepted.push(it.clone());
             }
+        }
+        if mp == "dev" {
+            accepted_dev = accepted.iter().map(|it| it.id).collect();
         }
         let pv = check_probes(rc, "c17", &accepted, mp);
         for it in &accepted {
@@ -822,7 +826,46 @@ pub fn run_c17(rc: &RunCtx) -> Outcome {
         }
     }
     let (mut checked, mut dups) = (0u64, 0u64);
-    let violations = confirm(rc, disagreements, 2, &mut checked, &mut dups);
+    let mut violations = confirm(rc, disagreements, 2, &mut checked, &mut dups);
+    // part 3: the whole public surface of the struct, read from the macro expansion (c17x.rs)
+    let limit = rc.tier.pick(150usize, 1500usize);
+    let step = (accepted_dev.len() + limit - 1) / limit.max(1);
+    let chosen: Vec<(usize, Layout, String)> = accepted_dev
+        .iter()
+        .enumerate()
+        .filter(|(k, id)| k % step.max(1) == 0 || (layouts[**id].fields.len() > 16 && *k % rc.tier.pick(5, 1) == 0))
+        .map(|(_, id)| (*id, layouts[*id].clone(), items[*id].source.clone()))
+        .collect();
+    let surface = if chosen.is_empty() {
+        None
+    } else {
+        match crate::c17x::surface_scan(rc, &chosen) {
+            Ok(s) => Some(s),
+            Err(e) => {
+                if violations.is_empty() {
+                    inconclusive(&format!("C17 surface scan: {}", e));
+                }
+                None
+            }
+        }
+    };
+    let mut surface_cov = json!(null);
+    if let Some(sf) = surface {
+        evaluations += sf.pub_fns_seen;
+        surface_cov = json!({
+            "declarations_expanded": sf.declarations,
+            "public_methods_seen": sf.pub_fns_seen,
+            "of_which_can_modify": sf.modifiers_seen,
+            "unexpected_modifiers_named_after_no_field_without_setter": sf.unexpected_but_unrelated,
+        });
+        let mut seen_sig = 0;
+        for v in sf.violations {
+            seen_sig += 1;
+            if seen_sig <= 3 {
+                violations.push(v);
+            }
+        }
+    }
     let samples: Vec<Value> = items
         .iter()
         .filter(|i| i.probes.iter().any(|p| !p.must_compile))
@@ -842,11 +885,15 @@ pub fn run_c17(rc: &RunCtx) -> Outcome {
         "of_which_rejected_by_the_macro_as_expected": debug_rejected,
         "disagreements_checked": checked,
         "further_disagreements_with_an_already_confirmed_signature": dups,
+        "surface_scan": surface_cov,
     });
     Outcome {
         violations,
         coverage,
-        assumptions: vec!["absence is observed as a compile error on the probe's own line (E0599), confirmed in isolation when it disagrees with the expectation".into()],
+        assumptions: vec![
+            "absence is observed as a compile error on the probe's own line (E0599), confirmed in isolation when it disagrees with the expectation".into(),
+            "part 3 reads the public surface from the nightly macro expansion (inherent `impl S` blocks only); a modifier is tied to a field by its name (<prefix>_<field>, <field>_<suffix>), methods named after no field without setter are listed, not judged".into(),
+        ],
     }
 }
 
